@@ -256,10 +256,48 @@ def fn_parts(ft):
     return i, i + 1, j, pc, body
 
 
+def normalise_bool_assign(ft, ads):
+    """D11: `x &= e;` / `x |= e;` (not-short-circuited bool update, unsupported by Verus) becomes
+    `{ let d11_t = e; x = x && d11_t; }` / `... x || d11_t`: e is still evaluated exactly once and first, so
+    this is the same computation whenever it type-checks (it type-checks only for bool)."""
+    n = 0
+    while True:
+        sig = ft.sig
+        hit = None
+        for k in range(1, len(sig) - 1):
+            if sig[k].text in ("&", "|") and sig[k + 1].text == "=" and sig[k + 1].s == sig[k].e and sig[k - 1].kind == "ident" \
+                    and sig[k + 2].text != "=":
+                # statement start: previous-previous token is `;`, `{` or `}`
+                if k >= 2 and sig[k - 2].text not in (";", "{", "}"):
+                    continue
+                m = k + 2
+                while m < len(sig) and sig[m].text != ";":
+                    if sig[m].text in OPEN:
+                        m = match_close(sig, m)
+                    m += 1
+                if m >= len(sig):
+                    continue
+                hit = (k, m)
+                break
+        if hit is None:
+            break
+        k, m = hit
+        x = sig[k - 1].text
+        e = ft.text[sig[k + 2].s:sig[m - 1].e]
+        op = "&&" if sig[k].text == "&" else "||"
+        ft.edits.append((sig[k - 1].s, sig[m].e - sig[k - 1].s, f"{{ let d11_t = {e}; {x} = {x} {op} d11_t; }}"))
+        ft.apply_edits()
+        ft.relex()
+        n += 1
+    if n:
+        ads.append({"rule": "D11", "what": f"{n} bool compound assignment(s) `&=`/`|=` rewritten with a temporary and `&&`/`||`"})
+
+
 def adapt_function(text, where, subs, report):
     ft = FnText(text, where)
     ft.relex()
     ads = report["adaptations"]
+    normalise_bool_assign(ft, ads)
 
     # D8: APIT -> named type parameter
     for sd in subs:
@@ -522,6 +560,103 @@ def adapt_function(text, where, subs, report):
     return "".join(a + "\n" for a in attrs) + ft.text
 
 
+
+def find_anchor(sig, lo, hi, anchor, where):
+    want = norm(anchor).split(" ")
+    hits = [k for k in range(lo, hi) if [x.text for x in sig[k:k + len(want)]] == want]
+    if len(hits) != 1:
+        raise ExtractError("lost-anchor", f"{where}: fragment anchor `{anchor}` matches {len(hits)} times")
+    return hits[0]
+
+
+def extract_fragment(src, body, end, where, subs, rep):
+    """D9: a statement range of a function body, from the statement starting with `.from` up to (not
+    including) the statement starting with `.until` (or to the end of the body with `.to_end`);
+    with `.drop print`, `println!(..)`/`print!(..)` calls are deleted.  Everything else is verbatim;
+    loops/hints/closures directives apply as for functions."""
+    sig = src.sig
+    sd = {d["kw"]: d for d in subs}
+    if "from" not in sd:
+        raise ExtractError("template", f"{where}: //@stmts needs .from")
+    a = find_anchor(sig, body + 1, end, sd["from"]["args"].strip().strip('"'), where)
+    if "until" in sd:
+        b = find_anchor(sig, body + 1, end, sd["until"]["args"].strip().strip('"'), where)
+    else:
+        b = end
+    if b <= a:
+        raise ExtractError("lost-anchor", f"{where}: fragment anchors out of order")
+    s_pos, e_pos = sig[a].s, sig[b - 1].e
+    raw = src.text[s_pos:e_pos]
+    rep["sha256"] = sha(raw)
+    rep["lines"] = [src.line_of(s_pos), src.line_of(e_pos)]
+    rep["adaptations"].append({"rule": "D9", "what": f"statement range from `{sd['from']['args'].strip()}` "
+                               + (f"until `{sd['until']['args'].strip()}`" if "until" in sd else "to the end of the body")})
+    txt = raw
+    if "drop" in sd and "print" in sd["drop"]["args"]:
+        toks = significant(tokenize(txt))
+        edits = []
+        k = 0
+        n = 0
+        while k < len(toks):
+            t = toks[k]
+            if t.kind == "ident" and t.text in ("println", "print", "eprintln", "eprint") and k + 2 < len(toks) \
+                    and toks[k + 1].text == "!" and toks[k + 2].text == "(":
+                c = match_close(toks, k + 2)
+                e = toks[c].e
+                if c + 1 < len(toks) and toks[c + 1].text == ";":
+                    e = toks[c + 1].e
+                edits.append((t.s, e - t.s))
+                n += 1
+                k = c + 1
+                continue
+            k += 1
+        for pos, dl in sorted(edits, key=lambda x: -x[0]):
+            txt = txt[:pos] + txt[pos + dl:]
+        rep["adaptations"].append({"rule": "D9", "what": f"{n} print!/println! call(s) dropped"})
+    rest = [d for d in subs if d["kw"] in ("loop", "hint", "closure", "fmt")]
+    wrapped = "fn __fragment() {\n" + txt + "\n}"
+    wrapped = adapt_function(wrapped, where, rest, rep)
+    i0 = wrapped.index("{") + 1
+    i1 = wrapped.rindex("}")
+    return wrapped[i0:i1]
+
+
+def extract_helpers(src, header, items):
+    """D10: every fn of every inherent `impl T` block with this header in the file is copied, so that code
+    under contract may call helpers that did not exist when the unit was written.  A helper whose body is a
+    single expression (no statements) gets the automatic contract `ensures r == (<body expression>)` — the
+    function is its own specification; any other helper is copied without a contract (callers learn nothing)."""
+    out = [f"// ---- helpers: all inherent methods of `{header}` in {src.rel} (D10) ----\n{header} {{\n"]
+    blocks = [c for c in find_children(src, 0, len(src.sig)) if head_matches(c[1], header)]
+    n = 0
+    for (kwi, head, body, end) in blocks:
+        if body is None:
+            continue
+        for (fk, fhead, fbody, fend) in find_children(src, body + 1, end):
+            if not fhead.startswith("fn ") or fbody is None:
+                continue
+            start, attrs = item_start_pos(src, fk)
+            raw = src.text[start:src.sig[fend].e]
+            name = src.sig[fk + 1].text
+            rep = {"file": src.rel, "item": f"{header} :: fn {name}", "adaptations": [], "sha256": sha(raw),
+                   "lines": [src.line_of(start), src.line_of(src.sig[fend].e)]}
+            inner = src.sig[fbody + 1:fend]
+            simple = bool(inner) and not any(t.text == ";" for t in inner) and not any(t.kind == "ident" and t.text in ("let", "return", "loop", "while", "for") for t in inner)
+            # return type present?
+            has_ret = any(src.sig[k].text == "-" and src.sig[k + 1].text == ">" for k in range(fk, fbody))
+            if simple and has_ret:
+                expr = src.text[src.sig[fbody + 1].s:src.sig[fend - 1].e]
+                subs = [{"kw": "ret", "args": "r", "text": ""}, {"kw": "spec", "args": "", "text": f"    ensures r == ({expr}),"}]
+                rep["adaptations"].append({"rule": "D10", "what": "expression-bodied helper: automatic contract `ensures r == (body)`"})
+            else:
+                subs = []
+                rep["adaptations"].append({"rule": "D10", "what": "helper copied without a contract"})
+            out.append(adapt_function(raw, f"{src.rel} :: {header} :: fn {name}", subs, rep) + "\n")
+            items.append(rep)
+            n += 1
+    out.append("}\n")
+    return "".join(out)
+
 # ---------------------------------------------------------------------------------------
 
 FIELDLESS_KEEP = ["Clone", "Copy", "PartialEq", "Eq"]
@@ -597,7 +732,7 @@ def parse_template(text):
     while i < len(lines):
         ln = lines[i]
         st = ln.strip()
-        if st.startswith("//@type "):
+        if st.startswith("//@type ") or st.startswith("//@helpers "):
             if buf:
                 nodes.append(("text", "\n".join(buf) + "\n"))
                 buf = []
@@ -605,11 +740,12 @@ def parse_template(text):
             nodes.append(("dir", {"kw": kw, "args": rest.strip(), "subs": [], "line": i + 1}))
             i += 1
             continue
-        if st.startswith("//@fn "):
+        if st.startswith("//@fn ") or st.startswith("//@stmts "):
             if buf:
                 nodes.append(("text", "\n".join(buf) + "\n"))
                 buf = []
-            d = {"kw": "fn", "args": st[6:].strip(), "subs": [], "line": i + 1}
+            kw0 = "fn" if st.startswith("//@fn ") else "stmts"
+            d = {"kw": kw0, "args": st.split(" ", 1)[1].strip(), "subs": [], "line": i + 1}
             i += 1
             cur = None
             while i < len(lines):
@@ -682,6 +818,9 @@ def build_unit(template_path, repo_root, verif_root):
         rel, path = parts[0], parts[1:]
         path = [p for p in path if p != "-"]
         src = source(rel)
+        if kw == "helpers":
+            out.append(extract_helpers(src, path[-1], items))
+            continue
         found = locate(src, path)
         rep = {"file": rel, "item": " :: ".join(path), "adaptations": []}
         if kw == "type":
@@ -689,6 +828,14 @@ def build_unit(template_path, repo_root, verif_root):
             txt = adapt_type(src, found, k, name, rep)
             out.append(f"// ---- extracted {rel} :: {' :: '.join(path)} (lines {rep['lines'][0]}-{rep['lines'][1]}) ----\n")
             out.append(txt)
+        elif kw == "stmts":
+            kwi, head, body, end = found
+            if body is None:
+                raise ExtractError("lost-anchor", f"{rel}: {path[-1]} has no body")
+            where = f"{rel} :: {' :: '.join(path)}"
+            txt = extract_fragment(src, body, end, where, node["subs"], rep)
+            out.append(f"// ---- fragment of {where} (lines {rep['lines'][0]}-{rep['lines'][1]}) ----\n")
+            out.append(txt + "\n")
         else:
             kwi, head, body, end = found
             start, attrs = item_start_pos(src, kwi)
